@@ -274,7 +274,7 @@ pub fn run(run: &mut Run) -> PResult {
             }
         }
         boundary.dedup();
-        let bad = (0..65536usize).into_par_iter().find_map_first(|b| {
+        let row = |b: usize| -> Option<(usize, usize)> {
             // predecessors of b: every value (thorough) or the values a key, mask or range test
             // would plausibly conflate with b, plus every class boundary (quick)
             let partners: Vec<u16> = if all { (0..=u16::MAX).collect() } else { engine::u16_partners(b as u16).into_iter().chain(boundary.iter().copied().filter(|_| b % 64 == 0 || boundary.binary_search(&(b as u16)).is_ok())).collect() };
@@ -285,7 +285,9 @@ pub fn run(run: &mut Run) -> PResult {
                 }
             }
             None
-        });
+        };
+        // quick: one thread, so that a really is the call before b; thorough: rows over all threads
+        let bad = if all { (0..65536usize).into_par_iter().find_map_first(row) } else { (0..65536usize).find_map(row) };
         let npairs: u64 = if all { 1 << 32 } else { 65536 * 60 + (65536 / 64 + boundary.len() as u64) * boundary.len() as u64 };
         run.generator(if all { "all ordered pairs of values, converted back to back" } else { "related ordered pairs of values, converted back to back" }, "exhaustive (histories of length 2)", Some(1 << 32), npairs, npairs, "from(a) immediately followed by from(b), b's rank compared with the model-checked expectation; quick: a ranges over bit flips, offsets, shifts, truncations of b and the class boundaries; thorough: every a");
         if let Some((a, b)) = bad {
